@@ -527,6 +527,15 @@ def check_message(col, msg, root, target, desc, key, width):
         if _plain(value) and '...' in ln.text and '...' not in repr(value) and len(ln.raw) - len(ln.text) + len(repr(value)) <= width:
             return col.violation('C05/target-abbreviated-although-it-fits', '%s: the line %r stands for %s, which fits in the width of %d\n%s'
                                  % (desc, ln.raw, repr(value), width, msg), wit)
+    # (4'') the same for every line of the trace: an abbreviated line stands for some evaluated value that does NOT fit
+    for ln in tokens:
+        if ln.kind not in ('Target', 'Spec') or '...' not in ln.text:
+            continue
+        cands = [v for v in ((f.target if ln.kind == 'Target' else f.spec) for f in frames) if matches(ln.text, v)]
+        if cands and all(_plain(v) and '...' not in repr(v) and len(ln.raw) - len(ln.text) + len(repr(v)) <= width for v in cands):
+            return col.violation('C05/target-abbreviated-although-it-fits' if ln.kind == 'Target' else 'C05/spec-abbreviated-although-it-fits',
+                                 '%s: the line %r (depth %d) stands for %s, which fits in the width of %d\n%s'
+                                 % (desc, ln.raw, ln.depth, short(repr(cands[0]), 200), width, msg), wit)
     # (5) ends with the type and message of the original error
     last = msg.rstrip('\n').split('\n')[-1]
     want_last = exc_line(original)
@@ -701,6 +710,36 @@ def reentrant_cases(col, tracer, width):
             col.violation('C05/reentrant-outer-specs-missing', 'outer specs not listed:\n%s' % msg, {'message': msg})
 
 
+def exact_fit_boundaries(col, tracer, width):
+    """values whose repr is a few columns shorter than, exactly as long as, and a few columns longer than the room on their line, as
+    root target, as the target of a nested step, as failing spec, at depth 0 and inside branches (one column less room per depth)"""
+    def run_one(desc, target, spec):
+        tracer.reset()
+        got = call(G, target, spec)
+        col.count('evaluations')
+        if got.ok or not isinstance(got.exc, GlomError):
+            col.count('no_error_or_not_glomerror')
+            return
+        col.case(('exact-fit', desc, width), True)
+        col.count('error_messages_checked')
+        col.count('boundary_messages_checked')
+        try:
+            msg = str(got.exc)
+        except Exception as e:
+            col.violation('C05/str-of-error-raises', '%s: str() of the error raised %r' % (desc, e), None)
+            return
+        check_message(col, msg, tracer.roots()[-1], target, desc, ('exact-fit', desc), width)
+    for n in range(width - 24, width + 3):
+        s_ = 'x' * n
+        run_one('root-target-str:%d' % (n - width), s_, 'nope')
+        run_one('root-target-list:%d' % (n - width), [s_], 'nope')
+        run_one('nested-target:%d' % (n - width), {'k': s_}, ('k', 'nope'))
+        run_one('failing-spec:%d' % (n - width), {'k': 1}, 'n' * n)
+        run_one('in-branch-depth-1:%d' % (n - width), {'k': s_}, Coalesce(('k', 'nope'), 'm' * n))
+        run_one('in-branch-depth-2:%d' % (n - width), {'k': s_}, ('k', Coalesce(Or('q' * n, T['nope']), (T, 'zz'))))
+        run_one('unicode:%d' % (n - width), '\u00e9' * n, 'nope')
+
+
 def child_main(width, seed, shard, nshards, tier):
     col = Collector('C05', tier, shard, nshards)
     import random
@@ -713,6 +752,8 @@ def child_main(width, seed, shard, nshards, tier):
     tracer.install()
     try:
         reentrant_cases(col, tracer, width)
+        if shard == 0:
+            exact_fit_boundaries(col, tracer, width)
         n = 400 if tier == 'quick' else 2500
         for _ in range(n):
             one_case(col, rng, tracer, width)
